@@ -6,6 +6,7 @@ mod fw;
 mod io;
 mod multi;
 mod rec;
+mod sat;
 mod solve;
 mod store;
 mod util;
@@ -40,6 +41,7 @@ fn main() {
             "enc" => enc::run(id, &p, &mut out),
             "multi" => multi::run(id, &p, &mut out),
             "equiv" => equiv::run(id, &p, &mut out),
+            "sat" => sat::run(id, &p, &mut out),
             "read" => io::run_read(id, &p, &mut out),
             "write" => io::run_write(id, &p, &mut out),
             _ => {
